@@ -38,7 +38,7 @@ RELS = ["full_transformation", "translation_part", "rotation_part", "rotation_an
         "point_distance", "point_distance_error_ratio"]
 STAT_KEYS = ["rmse", "mean", "median", "std", "min", "max", "sse"]
 ARRAYS = ["seconds_from_start", "timestamps", "distances_from_start", "distances"]
-SORT_CAP = {True: 300, False: 3000}       # arrays sorted inside Coq (insertion sort)
+SORT_CAP = {True: 300, False: 2000}       # arrays sorted inside Coq (insertion sort)
 COQ_CAP = {True: 2000, False: 20000}      # arrays summed inside Coq
 
 
@@ -879,7 +879,7 @@ def stats_cases(ctx):
         for n in [1023, 1024, 1025, 2047, 2999]:
             out.append(mk_stats((rng.integers(0, 64, n) / 4.0).tolist(), exact=True))
     # rounded regime: magnitudes 1e-12 .. 1e6, mixed, constant, nearly constant, single value
-    for k in range(ctx.n(400, 1500)):
+    for k in range(ctx.n(400, 2500)):
         mode = k % 8
         n = int(rng.integers(1, ctx.n(SORT_CAP[True], SORT_CAP[False])))
         if k % 50 == 0:
@@ -922,7 +922,7 @@ def _random_traj_pair(rng, n, exact, zero_steps):
         steps[0] = 0
         pos = np.cumsum(steps, axis=0).astype(float)
         epos = pos + rng.integers(-2, 3, (n, 3))
-        yaw = np.zeros(n) if rng.random() < 0.3 else np.cumsum(rng.integers(0, 3, n)) * 0.125
+        yaw = np.zeros(n) if rng.random() < 0.15 else np.cumsum(rng.integers(0, 3, n)) * 0.125
         eyaw = yaw + rng.integers(0, 2, n) * 0.0625
     else:
         steps = rng.normal(0, 1, (n, 3))
@@ -930,16 +930,32 @@ def _random_traj_pair(rng, n, exact, zero_steps):
             steps[rng.random(n) < 0.3] = 0
         pos = np.cumsum(steps, axis=0) + rng.choice([0.0, 4.0e5])
         epos = pos + rng.normal(0, 0.05, (n, 3))
-        yaw = np.cumsum(rng.uniform(0, 0.3, n))
+        yaw = np.cumsum(rng.uniform(0, 0.25, n))
         eyaw = yaw + rng.normal(0, 0.02, n)
     est_st = st + float(rng.choice([0.0, 0.125, 0.0625]))
     return mk_traj(st.tolist(), pos.tolist(), yaw.tolist()), mk_traj(est_st.tolist(), epos.tolist(), eyaw.tolist())
 
 
-APE_CHG = [None, None, "millimeters", "centimeters", "meters", "kilometers", "degrees", "radians", "none", "frames",
-           "percent", "seconds"]
 OPTS = [{}, {}, {}, {"align": True}, {"align": True, "correct_scale": True}, {"correct_scale": True},
         {"align_origin": True}, {"project": "xy"}]
+METRIC_UNIT = {"APE": {"translation_part": "meters", "point_distance": "meters", "rotation_angle_deg": "degrees",
+                       "rotation_angle_rad": "radians"},
+               "RPE": {"translation_part": "meters", "point_distance": "meters", "rotation_angle_deg": "degrees",
+                       "rotation_angle_rad": "radians", "point_distance_error_ratio": "percent"}}
+
+
+def chg_options(cls, rel, rng):
+    """None (x2), every convertible target of the relation's unit, and two targets that must be refused."""
+    u0 = METRIC_UNIT[cls].get(rel, "none")
+    if u0 in UNITS[1:5]:
+        conv = UNITS[1:5]
+    elif u0 in ("degrees", "radians"):
+        conv = ["degrees", "radians"]
+    else:
+        conv = [u0]
+    bad = [u for u in UNITS if u not in conv]
+    pick = [bad[int(i)] for i in rng.choice(len(bad), 2, replace=False)]
+    return [None, None] + conv + pick
 
 
 def ape_cases(ctx):
@@ -947,9 +963,10 @@ def ape_cases(ctx):
     out = []
     k = 0
     for rel in RELS:
-        for chg in APE_CHG:
-            for rep in range(ctx.n(3, 8)):
-                n = int(rng.integers(1, ctx.n(10, 40))) if rep else int(rng.integers(1, 4))
+        unsupported = rel == "point_distance_error_ratio"
+        for chg in chg_options("APE", rel, rng)[:3 if unsupported else None]:
+            for rep in range(ctx.n(4, 30)):
+                n = int(rng.integers(2, ctx.n(10, 40))) if rep else int(rng.integers(1, 3))
                 opts = OPTS[k % len(OPTS)] if n >= 4 else {}
                 exact = not opts and (k % 4 != 3)
                 ref, est = _random_traj_pair(rng, n, exact, zero_steps=(k % 5 == 0))
@@ -962,27 +979,26 @@ def rpe_cases(ctx):
     rng = ctx.np_rng(7)
     out = []
     k = 0
-    deltas = [("frames", [1, 2, 3, 5]), ("meters", [1.0, 2.0, 4.0]), ("radians", [0.125, 0.25, 0.5]),
-              ("degrees", [5.0, 10.0, 20.0])]
+    deltas = [("frames", [1, 1, 2, 3]), ("meters", [2.0, 3.0, 4.0, 6.0]), ("radians", [0.125, 0.25, 0.375]),
+              ("degrees", [7.0, 14.0, 21.0])]
     for rel in RELS:
         for dunit, ds in deltas:
             for allp in (False, True):
-                for rep in range(ctx.n(5, 14)):
-                    n = int(rng.integers(2, ctx.n(12, 40)))
-                    delta = float(rng.choice(ds))
-                    ratio = rel == "point_distance_error_ratio"
-                    exact = k % 4 != 3
-                    ref, est = _random_traj_pair(rng, n, exact, zero_steps=ratio or k % 6 == 0)
-                    chg = [None, None, None, "millimeters", "kilometers", "degrees", "radians", "centimeters", "percent",
-                           "none", "meters"][k % 11]
-                    opts = {"align": True} if (k % 9 == 8 and n >= 4) else {}
-                    out.append(mk_rpe(ref, est, rel, delta, dunit, allp, chg, opts, exact and not opts,
-                                      tol=float(rng.choice([0.1, 0.25, 0.5])) if dunit != "frames" else 0.1,
-                                      pairs_from_ref=(k % 7 == 0), support_loop=(k % 5 == 0)))
-                    k += 1
+                for chg in chg_options("RPE", rel, rng):
+                    for rep in range(ctx.n(1, 8)):
+                        n = int(rng.integers(3, ctx.n(12, 40)))
+                        delta = float(rng.choice(ds))
+                        ratio = rel == "point_distance_error_ratio"
+                        exact = k % 4 != 3
+                        ref, est = _random_traj_pair(rng, n, exact, zero_steps=ratio or k % 6 == 0)
+                        opts = {"align": True} if (k % 9 == 8 and n >= 4) else {}
+                        out.append(mk_rpe(ref, est, rel, delta, dunit, allp, chg, opts, exact and not opts,
+                                          tol=float(rng.choice([0.25, 0.5])) if dunit != "frames" else 0.1,
+                                          pairs_from_ref=(k % 7 == 0), support_loop=(k % 5 == 0)))
+                        k += 1
     # exhaustive small exact family for the ratio filter: every 0/1 step pattern of the reference on a line
     import itertools
-    for n in range(2, ctx.n(5, 6) + 1):
+    for n in range(2, ctx.n(5, 7) + 1):
         for pattern in itertools.product((0, 1), repeat=n - 1):
             x = np.concatenate([[0], np.cumsum(pattern)]).astype(float)
             ref = mk_traj([0.5 * i for i in range(n)], [[a, 0, 0] for a in x], [0.0] * n)
@@ -1072,7 +1088,7 @@ def run(ctx, replay=None, proofs_ok=True):
                    "support_loop, integer-grid (exact) and float trajectories, repeated reference positions. "
                    "Distinct by input; non-trivial = statistics of >= 2 different values, any unit pair, an "
                    "ape()/rpe() result with >= 2 error values or a refused change_unit"
-                   % (4 if ctx.quick else 5, 5 if ctx.quick else 6, SORT_CAP[ctx.quick], 10 ** 4 if ctx.quick else 10 ** 6),
+                   % (4 if ctx.quick else 5, 5 if ctx.quick else 7, SORT_CAP[ctx.quick], 10 ** 4 if ctx.quick else 10 ** 6),
            "samples": samples, "input_distribution": hist, "exhaustive": False,
            "exhaustive_subspaces": {"ordered unit pairs x {empty, non-empty}": True,
                                     "dyadic arrays up to length %d" % (4 if ctx.quick else 5): True,
